@@ -11,6 +11,8 @@ VERTEX inputs pointing at a <vertices> element).
 """
 import io
 import os
+
+import numpy
 import random
 import re
 import xml.etree.ElementTree as ET
@@ -178,8 +180,38 @@ def build_case(kind, seed, nops):
         if r0.random() < 0.7:
             data = data.replace(b'</COLLADA>', b'<extra><technique profile="TOOL"><note>x</note></technique></extra>' * r0.randint(1, 2) + b'</COLLADA>')
             pre.append('file:top-level-extra')
+        mesh_extra = None
+        if r0.random() < 0.5:
+            # a mesh that carries an <extra> and (sometimes) no primitive at all; a primitive is added after loading
+            root = ET.fromstring(data)
+            nsq = root.tag.split('}')[0] + '}'
+            meshes = list(root.iter(nsq + 'mesh'))
+            if meshes:
+                m = r0.choice(meshes)
+                if r0.random() < 0.6:
+                    for ch in list(m):
+                        if ch.tag.split('}')[1] in ('triangles', 'lines', 'polylist', 'polygons'):
+                            m.remove(ch)
+                    pre.append('file:mesh-without-primitives')
+                ex = ET.SubElement(m, nsq + 'extra')
+                ET.SubElement(ex, nsq + 'technique', profile='TOOL')
+                pre.append('file:mesh-extra')
+                parent = dict((c, p) for p in root.iter() for c in p)
+                mesh_extra = parent[m].get('id')
+                data = ET.tostring(root)
         doc = collada.Collada(io.BytesIO(data))
         gen.doc = doc
+        if mesh_extra is not None and mesh_extra in doc.geometries:
+            g = doc.geometries[mesh_extra]
+            pos = [k for k, v in g.sourceById.items() if isinstance(v, dict)]
+            if pos:
+                from collada import source as _source
+                il = _source.InputList()
+                il.addInput(0, 'VERTEX', '#' + pos[0])
+                nrows = len(g.sourceById[pos[0]]['POSITION'].data)
+                if nrows:
+                    g.primitives.append(g.createLineSet(numpy.array([0, nrows - 1], dtype=numpy.int32), il, None))
+                    pre.append('prims:append-lines')
     else:
         doc = collada.Collada(os.path.join(DATA, kind))
         gen = modelgen.Gen(seed, dict(schema=True))
